@@ -556,6 +556,13 @@ def statement_holds(fam, stated, R, got):
     today = R.date()
     if fam == 'on':
         d = stated[1]
+        if d <= 28:
+            # on_day_spec: that day of two consecutive months, past < R <= future as datetimes (the values are midnights)
+            here = dt.datetime(R.year, R.month, d)
+            nxt = dt.datetime(R.year + R.month // 12, R.month % 12 + 1, d)
+            prv = dt.datetime(R.year - (1 if R.month == 1 else 0), (R.month - 2) % 12 + 1, d)
+            want = [prv.date(), here.date()] if here >= R else [here.date(), nxt.date()]
+            return vals == want
         return all(v.day == d or calendar.monthrange(v.year, v.month)[1] < d or v.day == 1 for v in vals) and \
             all(abs((v - today).days) <= 62 for v in vals)
     if fam in ('wom', 'wom-rel'):
@@ -573,8 +580,12 @@ def statement_holds(fam, stated, R, got):
     if fam == 'wdom':
         return all(v.day == stated[1] and (v.year, v.month) == (R.year, R.month) for v in vals)
     if fam == 'rel':
+        # relative_weekday_spec: the stated weekday k weeks after the reference's ISO week, k = n less one when the
+        # reference's ISO weekday is past the culture map's value (Sunday = 0); k = 0: the reference's own date
         n, dow = stated[1]
-        return all(v.isoweekday() == (dow or 7) or v == today for v in vals) and all(0 <= (v - today).days <= 7 * n + 7 for v in vals)
+        k = n - (1 if R.isoweekday() > dow else 0)
+        want = today if k <= 0 else today - dt.timedelta(days=R.isoweekday() - 1) + dt.timedelta(days=7 * k + (dow or 7) - 1)
+        return vals == [want]
     if fam == 'sdn':
         n, sw = stated[1]
         return vals == [today + dt.timedelta(days=n + sw)]
@@ -591,14 +602,18 @@ def pipeline(ctx, CS):
         texts = english_texts(r, R, i)
         texts += english_wom_texts(r, R, every=False)
         if not ctx.thorough:
-            texts = [t for k, t in enumerate(texts) if t[1] in ('wom', 'wom-rel', 'wdd', 'on', 'rel') and (k + i) % 4 == 0]
+            texts = [t for k, t in enumerate(texts) if t[1] in ('wom', 'wom-rel', 'wdd', 'on', 'rel') and
+                     ((k + i) % 4 == 0 or (t[1] == 'on' and t[2][1] == R.day))]
         for (txt, fam, stated) in texts:
             if fam in ('special', 'next', 'this', 'last', 'bare', 'single', 'wdd-unit') or stated is None:
                 continue
             if fam == 'wdd' and stated[1][2] == 0:
                 continue                                   # the Sunday search (0.5 s per query) is replayed at unit level
+            if fam == 'on':
+                txt = 'the %d%s' % (stated[1], ordsuf(stated[1]))      # the form the extractor takes on its own
             cases.append((txt, R, fam, stated))
-    results = calcorr.run_pipeline([((c[0], 'en-us'), c[1]) for c in cases])
+    query = lambda c: ('on ' + c[0]) if c[2] == 'on' else c[0]          # `on_regex` looks behind for the word
+    results = calcorr.run_pipeline([((query(c), 'en-us'), c[1]) for c in cases])
     lines, keep = [], []
     for ci, (txt, R, fam, stated) in enumerate(cases):
         dp = en.dp
@@ -619,7 +634,7 @@ def pipeline(ctx, CS):
         txt, R, fam, stated = cases[ci]
         res = results[ci]
         ctx.count('pipeline:dateparser:' + fam)
-        ent = calcorr.whole_entity(res, txt)
+        ent = calcorr.entity_with_text(res, txt) if fam == 'on' else calcorr.whole_entity(res, txt)
         mv = model_values(ans)
         if ent is None:
             if mv is None:
@@ -634,7 +649,7 @@ def pipeline(ctx, CS):
         ctx.nontriv(('dateparser-pipeline', txt, str(R)))
         if got == mv:
             continue
-        fi = {'op': 'recognize_datetime', 'query': txt, 'culture': 'en-us', 'reference': R.strftime('%Y-%m-%d %H:%M:%S'),
+        fi = {'op': 'recognize_datetime', 'query': query(cases[ci]), 'culture': 'en-us', 'reference': R.strftime('%Y-%m-%d %H:%M:%S'),
               'family': fam, 'implementation': got, 'model': mv}
         holds = statement_holds(fam, stated, R, got)
         shown[fam] = shown.get(fam, 0) + 1
